@@ -446,6 +446,14 @@ impl Metainfo {
 
 #[cfg(feature = "verif")]
 impl Metainfo {
+    /// A copy with another tracker URL and info-hash (verification harness only).
+    pub fn verif_with(&self, announce: String, info_hash: [u8; HASH_SIZE]) -> Metainfo {
+        let mut metainfo = self.clone();
+        metainfo.announce = announce;
+        metainfo.info_hash = info_hash;
+        metainfo
+    }
+
     /// The parsed fields as they are stored (verification harness only): name, piece length and
     /// (length, path) of every file.
     pub fn verif_fields(&self) -> (&String, u64, Vec<(u64, &String)>) {
